@@ -47,7 +47,7 @@ class DispatchProbe:
             return ok(self.hdr)
         if r.startswith(self.fam + "::") and name in ("decode_async", "decode_with_protocol") and not r.endswith("Packet::decode_async"):
             self.events.append(("decoder", r, tuple(_role(a, self.hdr) for a in args)))
-            body_ty = r.rsplit("::", 2)[0]
+            body_ty = r.rsplit("::", 1)[0]
             return ok(Adt(body_ty, body_ty.rsplit("::", 1)[1], {"decoded_by": Sym(r)}))
         if r == "common::utils::read_u16":
             self.events.append(("read_u16",))
@@ -273,10 +273,8 @@ def h_payfmt_values(F, R):
                     return ok(Sym("U16"))
                 if r.endswith("::try_from"):
                     return ok(Sym(("validated", repr(args[0]))))
-                if name == "checked_sub":
-                    return some(Sym("REST"))
                 if name == "encode_len":
-                    return Sym("PROPLEN")
+                    return 1
                 if d == "alloc::vec::from_elem":
                     return Sym("PAYLOAD")
                 if name == "read_exact":
@@ -288,15 +286,15 @@ def h_payfmt_values(F, R):
                     return ok(Sym("S")) if valid else err(Sym("E"))
                 if name in ("from", "into", "deref", "as_ref", "as_slice", "new") and len(args) == 1:
                     return args[0]
-                if name == "len":
-                    return Sym("LEN")
+                if name == "len" and len(args) == 1 and isinstance(args[0], Sym):
+                    return 3          # concrete lengths: the frame (remaining length 50) is long enough for everything
+                if name == "is_empty" and len(args) == 1 and isinstance(args[0], Sym):
+                    return False
                 return None
 
             def cond(what, node):
                 if what[0] == "try-ok":
                     return True
-                if what[0] == "cmp":
-                    return True       # `remaining_len > 0`: the payload is not empty
                 return None
             hdr = _hdr("v5", "Publish", 50)
             args = [Sym("READER"), Adt("common::types::QoS", "Level0"), False] if kind == "will" else [Sym("READER"), hdr]
@@ -631,3 +629,220 @@ def h_fields_values(F, R):
                     "%s::%s for TopicFilter (cached separator indices %s) evaluates to %r via %s; it must be exactly the text's own %s" % (
                         tr, m, seps, r, calls[:3], m), where=fid)
     R.floor("H-fields", "comparison impl evaluations", n, 12)
+
+
+# ---- protocol name / level ---------------------------------------------------------------------------------------------
+
+def _bytes_of(v):
+    if isinstance(v, tuple) and v and v[0] in ("bytes", "str"):
+        return bytes(v[1]) if v[0] == "bytes" else v[1].encode()
+    if isinstance(v, Tup) and all(isinstance(x, int) for x in v.items):
+        return bytes(v.items)
+    return None
+
+
+def t_proto_values(F, R):
+    """Protocol::new evaluated on every (name class, level 0..255): the two specified names, five near-miss names and
+    an opaque 'any other name' (every comparison of which with a constant is false) -- accepts exactly (MQIsdp,3)
+    (MQTT,4) (MQTT,5); everything else is InvalidProtocol(the name as text, the level), or InvalidString when the name
+    is not UTF-8. Protocol::to_pair is the inverse; the discriminants are the levels (`protocol as u8` is the wire byte)."""
+    enum_path = "common::types::Protocol"
+    discr = enum_discriminants(F, enum_path)
+    for v, (name, level) in S.PROTOCOLS.items():
+        R.check(discr.get(v) == level, "T-proto", "discr/%s" % v, "Protocol::%s has discriminant %r, level is %d" % (v, discr.get(v), level))
+    R.check(set(discr) == set(S.PROTOCOLS), "T-proto", "variants", "Protocol variants are %s" % sorted(discr))
+    fid = "common::types::Protocol::new"
+    want = {(n, l): v for v, (n, l) in S.PROTOCOLS.items()}
+    names = [b"MQIsdp", b"MQTT", b"MQTt", b"MQIsdP", b"", b"MQTTX", b"MQIsd", None]
+    n = 0
+    bad = []
+    for name in names:
+        for utf8 in (True, False):
+            for level in range(256):
+                n += 1
+                arg = ("bytes", tuple(name)) if name is not None else Sym("OTHERNAME")
+                seen = []
+
+                def hook(d, res, args, node, env):
+                    r = res or d
+                    if r == "simdutf8::basic::from_utf8" or (node["fn"].get("name") == "from_utf8"):
+                        seen.append(args[0])
+                        return ok(Sym(("text-of", vkey(args[0])))) if utf8 else err(Sym("UTF8ERR"))
+                    if node["fn"].get("name") in ("into", "to_owned", "to_string", "from", "as_ref", "deref") and len(args) == 1 and \
+                            isinstance(args[0], Sym) and isinstance(args[0].tag, tuple) and args[0].tag[0] == "text-of":
+                        return args[0]
+                    return None
+
+                def cond(what, node):
+                    if what[0] == "cmp" and what[1] in ("Eq", "Ne") and (("sym", "OTHERNAME") in what[2:]):
+                        return what[1] == "Ne"
+                    if what[0] in ("pat-const", "pat-slice") and what[1] == Sym("OTHERNAME"):
+                        return False
+                    if what[0] == "try-ok":
+                        return None
+                    return None
+                try:
+                    r = PE(F, call_hook=hook, cond_hook=cond).call_fn(fid, [arg, level])
+                except Undecided as e:
+                    raise AnchorLost("Protocol::new cannot be evaluated on (%r, %d): %s" % (name, level, e))
+                k = result_kind(r)
+                w = want.get((name, level))
+                if w is not None:
+                    good = k[0] == "ok" and isinstance(k[1], Adt) and k[1].variant == w
+                elif not utf8:
+                    good = k[0] == "err" and isinstance(k[1], Adt) and k[1].variant == "InvalidString"
+                else:
+                    good = k[0] == "err" and isinstance(k[1], Adt) and k[1].variant == "InvalidProtocol" and k[1].fields.get("1") == level and \
+                        isinstance(k[1].fields.get("0"), Sym) and k[1].fields["0"].tag == ("text-of", vkey(arg))
+                if not good:
+                    bad.append(((name.decode() if name is not None else "<other>"), level, utf8, repr(r)[:120]))
+    R.check(not bad, "T-proto", "new", "Protocol::new differs from the specification on %d (name, level) pairs, e.g. %s" % (len(bad), bad[:3]), where=fid)
+    tp = "common::types::Protocol::to_pair"
+    for v, (nm, lv) in S.PROTOCOLS.items():
+        r = PE(F).call_fn(tp, [Adt(enum_path, v)])
+        got = (_bytes_of(r.items[0]), r.items[1]) if isinstance(r, Tup) and len(r.items) == 2 else None
+        R.check(got == (nm, lv), "T-proto", "to_pair/%s" % v, "Protocol::%s.to_pair() is %r, specification (%r, %d)" % (v, r, nm, lv), where=tp)
+    R.sample({"rule": "T-proto", "name_classes": len(names), "evaluations": n})
+    R.floor("T-proto", "evaluations of Protocol::new", n, 4096)
+
+
+def h_protoread_values(F, R):
+    """Protocol::decode_async reads the name (read_bytes) then the level (read_u8) and returns Protocol::new(name, level)
+    of exactly those two values; Connect::decode_async of each family is Protocol::decode_async followed by
+    decode_with_protocol(reader, header, that protocol)."""
+    fid = "common::types::Protocol::decode_async"
+    order = []
+    newargs = []
+
+    def hook(d, res, args, node, env):
+        r = res or d
+        if r == "common::utils::read_bytes":
+            order.append("read_bytes")
+            return ok(Sym("NAMEBUF"))
+        if r == "common::utils::read_u8":
+            order.append("read_u8")
+            return ok(Sym("LEVEL"))
+        if r.startswith("common::utils::read_") or r == "common::utils::decode_var_int":
+            order.append(r)
+            return ok(Sym("X"))
+        if r == "common::types::Protocol::new":
+            order.append("new")
+            newargs.append(tuple(args))
+            return ok(Sym("PROTOCOL"))
+        if node["fn"].get("name") in ("deref", "as_ref", "as_slice", "borrow") and len(args) == 1:
+            return args[0]
+        return None
+    try:
+        r = PE(F, call_hook=hook, cond_hook=TRY_OK).call_fn(fid, [Sym("READER")])
+    except Undecided as e:
+        raise AnchorLost("Protocol::decode_async cannot be evaluated: %s" % e)
+    R.check(order == ["read_bytes", "read_u8", "new"], "H-protoread", "reads", "Protocol::decode_async performs %s (expected read_bytes, read_u8, Protocol::new)" % order, where=fid)
+    R.check(newargs == [(Sym("NAMEBUF"), Sym("LEVEL"))], "H-protoread", "args",
+            "Protocol::new is called with %s (expected the name buffer and the level byte just read)" % (newargs,), where=fid)
+    R.check(r == ok(Sym("PROTOCOL")), "H-protoread", "result", "Protocol::decode_async returns %r (expected what Protocol::new returned)" % (r,), where=fid)
+    for fam in FAMS:
+        cf = "%s::connect::Connect::decode_async" % fam
+        seq = []
+
+        def hook2(d, res, args, node, env):
+            rr = res or d
+            if rr == "common::types::Protocol::decode_async":
+                seq.append("protocol")
+                return ok(Sym("PROTOCOL"))
+            if rr == "%s::connect::Connect::decode_with_protocol" % fam:
+                seq.append(("with", tuple(_role(a, HDR) if a != Sym("PROTOCOL") else "PROTOCOL" for a in args)))
+                return ok(Sym("CONNECT"))
+            if rr.startswith("common::utils::read_"):
+                seq.append(rr)
+                return ok(Sym("X"))
+            return None
+        HDR = _hdr(fam, "Connect", 20)
+        nparams = len([p for p in F.fns[cf]["thir"]["params"] if p.get("pat") is not None])
+        try:
+            r = PE(F, call_hook=hook2, cond_hook=TRY_OK).call_fn(cf, [Sym("READER"), HDR][:nparams])
+        except Undecided as e:
+            raise AnchorLost("%s cannot be evaluated: %s" % (cf, e))
+        good = len(seq) == 2 and seq[0] == "protocol" and seq[1][0] == "with" and seq[1][1][0] == "READER" and seq[1][1][-1] == "PROTOCOL" and r == ok(Sym("CONNECT"))
+        R.check(good, "H-compose", fam, "%s performs %s and returns %r (expected Protocol::decode_async, then decode_with_protocol(reader, header, that protocol))" % (cf, seq, r), where=cf)
+
+
+# ---- map_err sites -------------------------------------------------------------------------------------------------------
+
+def _map_fn_value(pe, node):
+    node = strip(node)
+    if node.get("k") == "Closure":
+        return ("closure", node["def"], {})
+    if node.get("k") == "Zst" and node.get("fn"):
+        fn = node["fn"]
+        return ("fn", fn.get("res") or fn.get("def"), fn)
+    return None
+
+
+def h_noswallow_maps(F, R):
+    """Every `Result::map_err(f)` in the crate, with f *evaluated* on abstract errors (closure, function reference or
+    constructor alike): on an io::Error the result is IoError(err.kind(), ..) (kind preserved); on a crate error, which can
+    carry an I/O error, every IoError(kind) maps to IoError(same kind) and every other variant to itself (possibly wrapped in
+    ErrorV5::Common), the one documented exception being InvalidTopicName -> InvalidResponseTopic; errors of pure computations
+    (UTF-8 validation, integer conversion) may be replaced freely."""
+    from r_io import all_bodies, _err_type, IO_CARRYING
+    from r_pe import _error_variants, _err_value, _io, KINDS
+    n = 0
+    cats = {"io": 0, "crate-error": 0, "pure": 0}
+    for fid, f, b in all_bodies(F):
+        for x in walk_all(b):
+            if x.get("k") != "Call" or x["fn"].get("name") != "map_err" or not (x["fn"].get("def") or "").startswith("core::result::Result"):
+                continue
+            n += 1
+            root = f["root"]
+            et = _err_type(x["args"][0].get("ty")) or ""
+            key = "%s/map_err-%s" % (root, et.rsplit("::", 1)[-1] or "?")
+            pe = None
+
+            def hook(d, res, args, node, env):
+                if d == "std::io::error::Error::kind" and args and args[0] == Sym("ioerr"):
+                    return Sym("ioerr.kind")
+                if node["fn"].get("name") in ("to_string", "to_owned") and len(args) == 1:
+                    return Sym("text")
+                return None
+            pe = PE(F, call_hook=hook)
+            fv = _map_fn_value(pe, x["args"][1])
+            if fv is None:
+                R.fail("H-noswallow", key, "%s: map_err with %s (neither a closure nor a function)" % (root, pp(x["args"][1])[:60]), where=loc(x))
+                continue
+            if et == "std::io::error::Error":
+                cats["io"] += 1
+                try:
+                    r = unwrap_common(pe.apply(fv, [Sym("ioerr")]))
+                except Undecided as e:
+                    r = "undecided: %s" % e
+                good = isinstance(r, Adt) and r.variant == "IoError" and r.fields.get("0") == Sym("ioerr.kind")
+                R.check(good, "H-noswallow", key, "%s maps an I/O error to %r: the error kind of the transport is not preserved" % (root, r), where=loc(x))
+            elif (et in IO_CARRYING or "::" not in et or et.startswith("<")) and \
+                    any(y.get("k") == "Await" or (y.get("k") == "Call" and y["fn"].get("name") == "block_on") for y in walk_all(x["args"][0])):
+                cats["crate-error"] += 1
+                bad = []
+                adts = ["common::error::Error"] + (["v5::error::ErrorV5"] if et != "common::error::Error" else [])
+                for adt in adts:
+                    for v in _error_variants(F, adt):
+                        if v == "Common":
+                            continue
+                        vals = [_io(k) for k in KINDS] if v == "IoError" else [_err_value(F, adt, v)]
+                        for val in vals:
+                            arg = val if (et == "common::error::Error" or adt != "common::error::Error") else Adt("v5::error::ErrorV5", "Common", {"0": val})
+                            try:
+                                r = unwrap_common(pe.apply(fv, [arg]))
+                            except Undecided as e:
+                                bad.append((v, "undecided: %s" % str(e)[:80]))
+                                continue
+                            if r == val:
+                                continue
+                            if v == "InvalidTopicName" and isinstance(r, Adt) and r.variant == "InvalidResponseTopic" and "Properties::decode_async" in root:
+                                continue
+                            bad.append((v if v != "IoError" else "IoError(%s)" % val.fields["0"].variant, repr(r)[:80]))
+                R.check(not bad, "H-noswallow", key,
+                        "%s: map_err on a Result<_, %s> changes errors that may be I/O errors or must be reported as they are: %s" % (root, et, bad[:3]), where=loc(x))
+            else:
+                cats["pure"] += 1
+                R.ok("H-noswallow", key, "error of a computation that performs no I/O (%s, no await in the receiver) replaced" % et)
+    R.floor("H-noswallow", "map_err sites", n, 4)
+    R.analysed["map_err_sites"] = dict(cats)
